@@ -107,9 +107,13 @@ def make_jobs(tier, seed):
     groups.append(("n3_watch", {"mode": "random", "runs_per_config": 2 if quick else 5, "max_changes": 2,
                                 "policies": pol + ["edits_first"], "max_steps": 120},
                    [fin(c, rec=True, inherit=True) for c in wsample]))
-    groups.append(("n3_watch_fail", {"mode": "random", "runs_per_config": 1 if quick else 3, "max_changes": 2,
-                                     "policies": pol + ["edits_first"], "max_steps": 120, "signals": True},
-                   [fin(c, rec=True, inherit=True, fail=True) for c in (rng.sample(wsample, 150) if quick else wsample)]))
+    # failures in watch mode, run to quiescence (no signal): a failure must not swallow a change made during the failing build
+    groups.append(("n3_watch_fail", {"mode": "random", "runs_per_config": 2 if quick else 4, "max_changes": 2,
+                                     "policies": pol + ["edits_first", "failures_first"], "max_steps": 150},
+                   [fin(c, rec=True, inherit=True, fail=True) for c in (rng.sample(wsample, 300) if quick else wsample)]))
+    groups.append(("n3_watch_fail_sig", {"mode": "random", "runs_per_config": 1 if quick else 2, "max_changes": 2,
+                                         "policies": pol + ["edits_first"], "max_steps": 120, "signals": True},
+                   [fin(c, rec=True, inherit=True, fail=True) for c in (rng.sample(wsample, 100) if quick else wsample)]))
     fams = gen_configs.families()
     groups.append(("families", {"mode": "random", "runs_per_config": 20 if quick else 200, "policies": pol},
                    [fin(c, inherit=True) for c in fams]))
@@ -118,6 +122,9 @@ def make_jobs(tier, seed):
     groups.append(("families_watch", {"mode": "random", "runs_per_config": 10 if quick else 100, "max_changes": 3,
                                       "policies": pol + ["edits_first"], "max_steps": 200},
                    [fin(dict(c, watch=True), inherit=True, rec=True) for c in fams]))
+    groups.append(("families_watch_fail", {"mode": "random", "runs_per_config": 10 if quick else 60, "max_changes": 3,
+                                           "policies": pol + ["edits_first", "failures_first"], "max_steps": 200},
+                   [fin(dict(c, watch=True), inherit=True, rec=True, fail=True) for c in fams]))
     fslow = [dict(c, slow=[b]) for c in fams for b in range(1, c["n"] + 1) if c["kind"][b - 1] == "b"]
     groups.append(("families_slow", {"mode": "random", "runs_per_config": 4 if quick else 40, "policies": pol}, [fin(c) for c in fslow]))
     groups.append(("families_dfs", {"mode": "dfs", "dfs_budget": 60 if quick else 1500},
